@@ -130,3 +130,30 @@ def slow_reader_session(rng, ms):
     lines.append("STALL 1 %d %s" % (ms, core.hx(payload)))
     lines.append("C 1 %s" % core.hx(gen.enc_cmd([b"GET", b"big"]) + gen.enc_cmd([b"PING"])))
     return lines
+
+
+def parallel_select_session(rng):
+    """every connection selects its own database again and again and works on the SAME key names as the others, all at the same moment:
+    whatever another connection selects, a connection's commands run on the database it selected itself"""
+    nconn = rng.randint(4, 10)
+    lines = ["S 16"]
+    for _ in range(rng.randint(2, 3)):
+        items = []
+        for c in range(1, nconn + 1):
+            db = b"%d" % (c % 16)
+            payload = b""
+            for r in range(rng.randint(60, 200)):
+                payload += gen.enc_cmd([b"SELECT", db])
+                x = rng.random()
+                if x < 0.5:
+                    payload += gen.enc_cmd([b"SET", b"k", b"conn%d-%d" % (c, r)]) + gen.enc_cmd([b"GET", b"k"])
+                elif x < 0.8:
+                    payload += gen.enc_cmd([b"INCR", b"n"])
+                else:
+                    payload += gen.enc_cmd([b"APPEND", b"a", b"%d" % c]) + gen.enc_cmd([b"STRLEN", b"a"])
+            items.append("%d:%s" % (c, core.hx(payload)))
+        lines.append("PAR " + " ".join(items))
+    # afterwards every database holds exactly what its own connection wrote
+    for c in range(1, nconn + 1):
+        lines.append("C %d %s" % (nconn + 20, core.hx(gen.enc_cmd([b"SELECT", b"%d" % (c % 16)]) + gen.enc_cmd([b"GET", b"k"]) + gen.enc_cmd([b"GET", b"n"]) + gen.enc_cmd([b"GET", b"a"]))))
+    return lines
